@@ -31,7 +31,17 @@ def monitor (pid : String) (c a : List String) : String :=
     let calls := callsS.splitOn ";"
     let ress := (resS.splitOn "|").map fun it => ((it.splitOn "/").drop 1).headD ""
     if calls.length != ress.length then "bad: unparsable observation (call count)" else
-    let bad := Spec.E2E.check pid cfg authOn evs drecs ((calls.zip ress).map fun (c, r) => parseCall c r)
+    -- an explicit Hello as the first call: its result is the backend's answer to the session it asked for — in LMTP that of the one
+    -- LHLO; in SMTP that of the last greeting (a 500/502 to EHLO makes the client try HELO, which asks the backend again)
+    let nsRs := evs.filterMap fun e => match e with | .ns _ _ _ r => some r | _ => none
+    let helloBad : List String :=
+      match calls.head?, ress.head?, nsRs with
+      | some c0, some r0, n0 :: _ =>
+        if !c0.startsWith "hello/" then [] else
+        (Spec.E2E.verdict "env" (if cfg.lmtp then n0 else nsRs.getLast?.getD n0) r0).filter
+          (fun r => pid == "ALL" || pid.isPrefixOf r)
+      | _, _, _ => []
+    let bad := helloBad ++ Spec.E2E.check pid cfg authOn evs drecs ((calls.zip ress).map fun (c, r) => parseCall c r)
     if bad.isEmpty then "ok" else "bad: " ++ String.intercalate "; " bad.eraseDups
   | _, _ => "bad: unparsable observation"
 
